@@ -32,6 +32,8 @@ use std::io::Write;
 pub struct Cx<'tcx> {
     pub tcx: TyCtxt<'tcx>,
     pub krate: String,
+    /// names of extern crates: `crate::rustc_parse::x` (path through an `extern crate` item) → `rustc_parse::x`
+    pub externs: Vec<String>,
 }
 
 impl<'tcx> Cx<'tcx> {
@@ -46,8 +48,15 @@ impl<'tcx> Cx<'tcx> {
                 if s[i..].starts_with("crate::")
                     && (i == 0 || !(b[i - 1].is_ascii_alphanumeric() || b[i - 1] == b'_'))
                 {
-                    out.push_str(&self.krate);
-                    out.push_str("::");
+                    let rest = &s[i + 7..];
+                    let seg_end = rest.find(|c: char| !(c.is_ascii_alphanumeric() || c == '_')).unwrap_or(rest.len());
+                    let seg = &rest[..seg_end];
+                    if rest[seg_end..].starts_with("::") && self.externs.iter().any(|e| e == seg) {
+                        // drop the `crate::` prefix: the next segment is an extern crate
+                    } else {
+                        out.push_str(&self.krate);
+                        out.push_str("::");
+                    }
                     i += 7;
                 } else {
                     let ch = s[i..].chars().next().unwrap();
@@ -108,7 +117,10 @@ impl rustc_driver::Callbacks for Cb {
             Err(_) => return Compilation::Continue,
         };
         let krate = tcx.crate_name(rustc_hir::def_id::LOCAL_CRATE).to_string();
-        let cx = Cx { tcx, krate: krate.clone() };
+        let externs: Vec<String> =
+            tcx.crates(()).iter().map(|c| tcx.crate_name(*c).to_string()).collect();
+        if std::env::var("RFX_DEBUG").is_ok() { eprintln!("externs: {:?}", externs); }
+        let cx = Cx { tcx, krate: krate.clone(), externs };
         let mut out = String::with_capacity(1 << 24);
         let crate_types: Vec<String> =
             tcx.crate_types().iter().map(|t| format!("{:?}", t)).collect();
